@@ -17,7 +17,7 @@ import (
 )
 
 var Spec = engine.Spec{
-	ID: "C14", Run: Run, QuickBud: 5 * time.Minute, ThorBud: 20 * time.Minute,
+	ID: "C14", Run: Run, MapOrders: true, QuickBud: 5 * time.Minute, ThorBud: 20 * time.Minute,
 	Technique: "explicit enumeration of ordered node pairs (base, base + <=2 (thorough 3) reflection-generated single-field deviations, both directions) against a per-attribute count model and a reconstruction model",
 	Rule:      "case = (base, set of <=k deviations, direction); bases: empty, sparse, fully populated by reflection, fully populated with duplicated list elements; distinct state = base + deviation labels + direction",
 	Assume:    []string{"attributes compared as sets for list- and map-valued ones and to the second for dates; nested persons / external references identified by their full content"},
@@ -296,6 +296,11 @@ func diffCase(t *engine.T, fds []protoreflect.FieldDescriptor, n1, n2 *sbom.Node
 	d := n1.Diff(n2)
 	t.Transitions(1)
 	t.Validated(1)
+	if d != nil {
+		t.Observe(fmt.Sprint(d.DiffCount, gen.Canon(d.Added, ordered), gen.Canon(d.Removed, ordered)))
+	} else {
+		t.Observe("nil")
+	}
 	if want == 0 {
 		if d != nil {
 			return engine.Violate("diff-sound", "", "no attribute differs but Diff reports %d difference(s): added=%s removed=%s", d.DiffCount, gen.Snap(d.Added), gen.Snap(d.Removed))
